@@ -70,6 +70,11 @@ func (r ResolveResult) clone() ResolveResult {
 // Targets computes the target addresses to attempt in preferred order.
 func (r ResolveResult) Targets(network string) iter.Seq[Target] {
 	address := func(ip net.IP, port uint16) netip.AddrPort {
+		// An IPv4 address is the same address, of the same family, in its
+		// 4-byte and in its 16-byte (::ffff:a.b.c.d) form.
+		if v4 := ip.To4(); v4 != nil {
+			ip = v4
+		}
 		if (network == "tcp4" || network == "udp4") && len(ip) != 4 {
 			return netip.AddrPort{}
 		}
